@@ -275,6 +275,8 @@ def run(chk):
     rule_writer_wellformed(chk, s2t)
     rule_unsupported(chk, s2t)
     rule_layer_order(chk, s2t)
+    from ..strtrunc import run_strtrunc
+    run_strtrunc(chk, s2t, "K7-strtrunc", lambda src: src.startswith(("lib/tar/", "bin/sqfs2tar/")) and "/test/" not in src)
     rule_sparse_default(chk, allp)
     from ..tarrules import t1_rule, t2_rule
     t2s = load_program("tar2sqfs")
@@ -287,5 +289,6 @@ def run(chk):
     chk.floor("K1-tarpad", 1)
     chk.floor("K5-unsupported", 1)
     chk.floor("K12-layer", 1)
+    chk.floor("K7-strtrunc", 1)
     chk.floor("K12-sparse", 2)
     chk.floor("T2-short", 5)
